@@ -110,9 +110,9 @@ def run_once(r):
     r.events = n
     out = open(out_path, "rb").read().decode("utf-8", "replace")
     err = open(err_path, "rb").read().decode("utf-8", "replace")
-    r.log("exit=%d stdout_lines=%d stderr=%s" % (rc, out.count("\n"), err.strip()[:200]))
+    r.log("exit=%d stdout_lines=%d stderr=%s" % (rc, out.count("\n"), simlib.norm_err(err).strip()[:200]))
     if rc != 0:
-        r.violate("C23", "run_error", attrs, "octosql exited %d on a well-formed document: %s" % (rc, err.strip()[:300]))
+        r.violate("C23", "run_error", attrs, "octosql exited %d on a well-formed document: %s" % (rc, simlib.norm_err(err).strip()[:300]))
         return
     got = []
     for line in out.splitlines():
